@@ -11,7 +11,8 @@ the `{}`/`None` conventions and the zip-sum of both front ends, and the assignme
 `_psposix.disk_usage`.
 
 Correspondence: the REAL `psutil.net_io_counters / psutil.disk_io_counters` (front end →
-`_pslinux` → parsing of a fake procfs; `os.access` redirected for `/sys/block/...` only) and
+`_pslinux` → parsing of a fake procfs; `os.access`, `os.path.exists`, `os.listdir`, `os.walk` redirected for
+`/sys/block[/...]` only, so that worlds without `/proc/diskstats` run the real `read_sysfs`) and
 `psutil.disk_usage` (over a patched `os.statvfs`) against the Lean model and the specification
 on generated device tables rendered by the *Lean* kernel-side renderers.
 """
@@ -32,20 +33,22 @@ DRIVER_MODULES = ["PsutilModel.Model.C09Gen", "PsutilModel.Spec.C09"]
 NEEDS_EXT = True
 TRUSTED = [
     "C09 kernel-side renderers (Spec/C09.lean): /proc/net/dev line `%6s: %7llu %7llu %4llu %4llu %4llu %5llu %10llu %9llu %8llu %7llu %4llu %4llu %4llu %5llu %7llu %10llu`, /proc/diskstats line `%4d %7d %s` + 11 (+4, +6) blank-separated counters, the 7-field partition line of 2.6.0-2.6.24, and psutil's own 15-field '2.4' layout as pinned by the test-suite (test_emulate_kernel_2_4); validated each run against the live /proc/net/dev and /proc/diskstats of the sandbox by an independent strict parser",
-    "C09: int() is modelled on plain ASCII decimal tokens (what %lu/%llu/%u print) and as ValueError on every other token; '+5', '-5', '1_0', Unicode digits are outside the model and are not generated",
+    "C09: int() on ASCII tokens is Base/C09Int.pyInt? (surrounding 9-13/32 stripped - not 0x1c-0x1f -, optional sign, single underscores between digits, leading zeros; compared with CPython's int() on every token of length <= 4 over '+-_019x', blank, 0x1f on every run); a negative result, a token with a byte >= 0x80 (int() accepts non-ASCII decimal digits) and text in which str.split() would see a UTF-8 encoded Unicode space are reported by the model as 'unmodelled' and not judged; the 4300-digit limit of int() (sys.int_info.default_max_str_digits) is not modelled: kernel counters have at most 20 digits",
+    "C09: read_sysfs sees /sys/block through os.path.exists / os.listdir / os.walk, which the harness redirects (for the paths '/sys/block' and '/sys/block/...' only) into a temp tree; os.walk itself (top-down, followlinks=False) is modelled by Base/C09Sysfs.walk, the tree handed to the model is read back from the temp tree in os.scandir order; kernel `stat` renderer (Spec.renderStat: '%8lu' cells, one blank between, '\\n') is a trusted transcription of Documentation/block/stat.rst / part_stat_show",
     "C09: is_storage_device is os.access('/sys/block/<name with / -> !>', F_OK); the harness redirects exactly these paths into a temp tree and calls the real os.access there",
     "C09: round(x, 1) on an IEEE double is compared with the exact rational rounded half-even (tolerance 1e-9) and, within 1e-7 of a rounding tie, with +-0.05 of the exact value",
 ]
 ASSUMPTIONS = [
     "interface names: non-empty, no NUL, no '\\n'/'\\r', first and last byte not removed by the strip the code applies (theorems C09_net*: WFName netCfg.nameWs); the full-strength statement for every name free of C-locale whitespace is C09_net_every_kernel_name_Full (proved for `.strip(' ')`, refuted for the bare `.strip()`: finding C09-net-name-strip); with the bare strip() the UTF-8 encodings of Unicode spaces at the ends of a name are stripped by the code but not by the byte-level model (inside the finding's region only)",
-    "disk names: one non-empty token for str.split() (no ASCII whitespace incl. 0x1c-0x1f, no NUL; not '.' or '..'; distinct after the / -> ! mapping); UTF-8 encoded Unicode spaces inside a disk name are outside the byte-level model (never generated: kernel disk names are driver-chosen ASCII)",
+    "disk names (/proc/diskstats source): one non-empty token for str.split(): no ASCII whitespace incl. 0x1c-0x1f, no NUL, no UTF-8 encoded Unicode space (WFDisk.noUni: hasUniSpace name = false, stated in the theorems; a line that has one is 'unmodelled'); not '.' or '..'; distinct after the / -> ! mapping",
+    "/sys/block source (C09_sysfs*): kernel-shaped tree - `stat` is the only file of that name in a device directory, attribute directories contain no file called `stat` (a deeper `stat` file IS read by the code and by the model: raw family 'deepstat'), directory names distinct and not '.'/'..'; names need not be split() tokens; a device whose kernel name contains '/' is reported under its sysfs name ('!' for '/'): C09_sysfs_agrees_with_procfs has the hypothesis, C09_sysfs_slash_name_counterexample shows it is needed",
     "device names are unique within one /proc file for the round-trip/sum theorems (the model itself keeps dict-overwrite semantics and the correspondence exercises duplicates)",
-    "nowrap=False (nowrap=True post-processing is property C10); /proc/diskstats exists (the /sys/block/*/stat fallback read_sysfs is not modelled)",
+    "nowrap=False (nowrap=True post-processing is property C10)",
 ]
 MANIFEST = {
-    "level_text": "Machine-checked Lean 4 proofs over a model of _pslinux.net_io_counters, _pslinux.disk_io_counters (read_procfs branch + is_storage_device filter), the two psutil front ends (nowrap=False) and _psposix.disk_usage: round-trip theorems parse(render(table)) = documented fields for EVERY interface table (names with ':' '/' digits, unbounded counters) and for every /proc/diskstats table mixing the 14-, 18-, 20- (any >=18), 7- and 15-field layouts (sectors x 512), ValueError for every other field count, total = field-wise sum over whole disks only / over all interfaces (deleting every partition line leaves the total unchanged), None/{} conventions, disk_usage formulas, 0 <= percent <= 100, |round1 q - q| <= 1/20. The full-strength name statement (every interface name free of C-locale whitespace is reported unchanged) is proved for `.strip(' ')` and refuted with a witness for the bare `.strip()` the current source uses (finding C09-net-name-strip, fixes/C09-net-name-strip.diff). The model's column maps, branch table, sector size, skip condition, namedtuple fields and disk_usage assignments are regenerated from the source on every run and are parameters of the model the theorems are about; the model is tied to the code by a differential run of the real front-end functions over a fake procfs whose files are produced by the Lean renderers.",
-    "level_note": "Trusted: Lean kernel + {propext, Classical.choice, Quot.sound}; the translator; the correspondence harness; kernel line renderers; int()/split()/strip()/round() of CPython modelled; read_sysfs fallback and non-ASCII Unicode spaces in names not modelled.",
-    "technique": "Lean 4 round-trip proofs (render → parse) per kernel layout with translator-fed column maps + sum laws by induction + differential correspondence over a fake procfs",
+    "level_text": "Machine-checked Lean 4 proofs over a model of _pslinux.net_io_counters, _pslinux.disk_io_counters (read_procfs, read_sysfs, the choice between them, NotImplementedError, is_storage_device filter), the two psutil front ends (nowrap=False; the zip/sum of the system-wide branch is a translator fact) and _psposix.disk_usage: round-trip theorems parse(render(table)) = documented fields for EVERY interface table (names with ':' '/' digits, unbounded counters) and for every /proc/diskstats table mixing the 14-, 18-, 20- (any >=18), 7- and 15-field layouts (sectors x 512), ValueError for every other field count, total = field-wise sum over whole disks only / over all interfaces (deleting every partition line leaves the total unchanged), None/{} conventions, the same for every kernel-shaped /sys/block tree when /proc/diskstats is absent (stat files of 11, 15, 17 or more fields, partitions below disks, attribute files/directories around; fewer than 10 fields: ValueError) and agreement of the two sources for the same kernel state (names without '/'; counterexample for 'c/d' proved), NotImplementedError when neither exists, int() acceptance on ASCII tokens, disk_usage formulas, 0 <= percent <= 100, |round1 q - q| <= 1/20. The full-strength name statement (every interface name free of C-locale whitespace is reported unchanged) is proved for the translator-generated configuration (C09_net_names_full: the source uses `.strip(' ')`) and refuted with a witness for the bare `.strip()` (former finding C09-net-name-strip). The model's column maps, branch table, sector size, skip condition, namedtuple fields and disk_usage assignments are regenerated from the source on every run and are parameters of the model the theorems are about; the model is tied to the code by a differential run of the real front-end functions over a fake procfs whose files are produced by the Lean renderers.",
+    "level_note": "Trusted: Lean kernel + {propext, Classical.choice, Quot.sound}; the translator; the correspondence harness; kernel line renderers; int()/split()/strip()/round()/os.walk of CPython modelled; negative int() results, non-ASCII digit tokens and UTF-8 encoded Unicode spaces are outside the model's domain (the model says so, such inputs are counted and not judged).",
+    "technique": "Lean 4 round-trip proofs (render → parse) per kernel layout with translator-fed column maps + sum laws by induction + differential correspondence over a fake procfs and a redirected /sys/block",
     "design_ref": "DESIGN.md §5 C09",
 }
 
@@ -1386,7 +1389,7 @@ def run_ops(ctx, impl, ops):
                                      o["perdisk"], nowrap)
             elif kind == "sysfsraw":
                 im = impl.disk_world(None if o["diskstats"] is None else bytes.fromhex(o["diskstats"]), o["tree"],
-                                     o["perdisk"], nowrap, sysdir=o.get("_sysdir"))
+                                     o["perdisk"], nowrap, sysdir=o.pop("_sysdir", None))
             elif kind == "int":
                 im = impl.ints([bytes.fromhex(x) for x in o["toks"]])
             elif kind == "storage":
@@ -1555,7 +1558,7 @@ def correspond(ctx, res):
         ops += [(o, m, "exhaustive") for o, m in exhaustive_ops()]
         n_exh = len(ops) - n_exh0
         ops += [(o, m, "storage") for o, m in storage_ops(ctx.rng)]
-        n = ctx.n(1000, 50000)
+        n = ctx.n(1000, 40000)
         for i in range(n):
             r = i % 20
             if r < 5:
